@@ -35,7 +35,7 @@ import (
 func TestMain(m *testing.M) {
 	ev.Describe("rapid cases (carrier kind, entry point, declared type/format, keyword, value, constraint): the value is built inside the carrier's and the format's range, the constraint relative to it "+
 		"(equal, ±1, ± a fraction, far, negative, zero, near ±2^31 / ±2^53; for multipleOf an exact divisor, a menu of decimal and integer factors, or an unrelated factor); "+
-		"every other carrier able to hold the same number exactly is evaluated through the same entry point. "+
+		"a quarter of the schema/param/header cases declare a second keyword of another family beside the first (mostly one that holds); every other carrier able to hold the same number exactly is evaluated through the same entry point. "+
 		"non-trivial = integer-kinded primary carrier against a fractional, negative or > 2^31 constraint, or multipleOf with |quotient| > 1e9, or a float32 carrier with a non-dyadic constraint, or a json.Number carrier; distinct by content hash",
 		"a float64 (value or constraint) stands for the decimal reading of its shortest round-trip text; values and constraints are integers within ±(2^53-1) (the safe-integer range, which is also what the library documents for integers carried by floats) or decimals with at most 6 fractional and 15 significant digits, so the reading is unambiguous; a float32 stands for its exact binary value",
 		"constraints that the declared type/format cannot represent (fractional bound on type integer, bound outside int32 for format int32) are outside the domain (the library has a dedicated 'boundary value must be of type' diagnosis); constructed away, counted as excluded when replayed",
@@ -155,19 +155,32 @@ var fracMenu = []*big.Rat{frac(1, 2), frac(1, 4), frac(3, 4), frac(1, 10), frac(
 var factorMenu = []*big.Rat{rat(1), rat(2), rat(3), rat(5), rat(7), rat(10), rat(100), rat(1000000), rat(two31), rat(two31 + 1),
 	frac(1, 2), frac(1, 4), frac(1, 10), frac(1, 100), frac(1, 1000), frac(1, 1000000), frac(3, 2), frac(5, 2), frac(3, 10), frac(3, 4)}
 
+// pick chooses uniformly: rapid's integer generators favour small values
+// (right for magnitudes, wrong for an even spread over kinds); its booleans are fair.
+func pick[T any](t *rapid.T, from []T, label string) T {
+	v := 0
+	for i := 0; i < 10; i++ {
+		v <<= 1
+		if rapid.Bool().Draw(t, label) {
+			v |= 1
+		}
+	}
+	return from[v%len(from)]
+}
+
 func gen(t *rapid.T) Case {
 	var c Case
-	c.Carrier = rapid.SampledFrom(allCarriers).Draw(t, "carrier")
+	c.Carrier = pick(t, allCarriers, "carrier")
 	if c.Carrier == sm.JSONNumber {
 		c.Entry = eSchema
 	} else {
-		c.Entry = rapid.SampledFrom(entries).Draw(t, "entry")
+		c.Entry = pick(t, entries, "entry")
 	}
 	switch c.Entry {
 	case eSchema:
-		c.Type = rapid.SampledFrom([]string{"", "number", "number", "integer", "integer"}).Draw(t, "type")
+		c.Type = pick(t, []string{"", "number", "number", "integer", "integer"}, "type")
 	case eParam, eHeader:
-		c.Type = rapid.SampledFrom([]string{"number", "integer"}).Draw(t, "type")
+		c.Type = pick(t, []string{"number", "integer"}, "type")
 		if c.Entry == eParam {
 			c.In = rapid.SampledFrom([]string{"query", "header", "path", "formData"}).Draw(t, "in")
 		}
@@ -178,7 +191,7 @@ func gen(t *rapid.T) Case {
 	case "number":
 		c.Format = rapid.SampledFrom([]string{"", "", "float", "double"}).Draw(t, "format")
 	}
-	c.Keyword = rapid.SampledFrom(sm.NumericKeywords).Draw(t, "keyword")
+	c.Keyword = pick(t, sm.NumericKeywords, "keyword")
 
 	// the range the value must stay in
 	lo, hi := -sm.Limit, sm.Limit
